@@ -8,4 +8,5 @@ INVARIANT NegInvolutive
 INVARIANT SubSelf
 INVARIANT AsFloors
 INVARIANT UnitsAgree
+INVARIANT ReadBack
 CHECK_DEADLOCK FALSE
